@@ -12,8 +12,9 @@ REPO = os.environ.get('PGMV_REPO', '/repo')
 BUILD = os.environ.get('PGMV_BUILD', os.path.join(VERIF, 'build'))
 
 # property -> evidence level (default 'proof')
-LEVELS = {'C12': 'other'}
+LEVELS = {'C12': 'other', 'C06': 'other'}
 EXPLAIN = {
+    'C06': 'Deductive core: DynamicPGMIndex::range under contract (thorough tier only; obligations/discharged below are 0 in the quick tier). Traversal through the iterator / LoserTree, size() and empty() are decided only by the bounded native link on the real class against std::map; bounded results are never counted as proved.',
     'C08': 'CompressedPGMIndex::search and the CompressedLevel accessors are under contract (obligations/discharged below; indexes of at most 8 levels). The constructor and merge_slopes are decided only by the bounded native link on the real class; bounded results are never counted as proved.',
     'C12': 'Deductive core: serialize_and_map under contract and a harness proof of the write/reopen round trip of the header (obligations/discharged below). The equivalence of the two creating constructors and byte-identity of the files are decided only by the bounded native link on the real class (files compared byte by byte); bounded results are never counted as proved.',
     'C15': 'insert, pairwise_merge, merge, the capacity helpers and the constructor are under contract (obligations/discharged below). The invariants along histories are decided only by the bounded native link through the guarded friend accessor; bounded results are never counted as proved.',
